@@ -401,6 +401,15 @@ type Flow struct {
 	depth int
 	sums  map[*ssa.Function]*Event
 	stack map[*ssa.Function]bool
+	// absorbed helper calls (absorb.go): the helper's return states split by
+	// what it returned, for the edges that test the call's result
+	entry    State
+	exits    map[*ssa.Call]*helperExit
+	recorded bool
+}
+
+type helperExit struct {
+	all, ok, fail State
 }
 
 func newFlow(w *World, fn *ssa.Function, cl *Classifier) *Flow {
@@ -574,7 +583,11 @@ func (f *Flow) run() {
 		inWork[b] = false
 		var in State
 		if b == entry {
-			in = State{"": newFacts()}
+			if f.entry != nil {
+				in = f.entry.clone()
+			} else {
+				in = State{"": newFacts()}
+			}
 		} else {
 			in = State{}
 			for _, p := range b.Preds {
@@ -643,6 +656,9 @@ func (f *Flow) edge(p *ssa.BasicBlock, si int, po State, b *ssa.BasicBlock) []*F
 	var edgeEv *Event
 	if ifi != nil {
 		edgeEv = f.edgeEvent(ifi, branch)
+		if sub := f.absorbedEdgeState(p, ifi, branch); sub != nil {
+			po = sub
+		}
 	}
 	for _, d := range po {
 		if ifi != nil {
@@ -851,6 +867,11 @@ func (f *Flow) transfer(b *ssa.BasicBlock, in State, record bool) State {
 			for _, d := range cur {
 				d.apply(e)
 			}
+			if e == nil {
+				if nxt := f.absorb(x, cur, record); nxt != nil {
+					cur = nxt
+				}
+			}
 		case *ssa.Defer:
 			for _, d := range cur {
 				d.apply(ev(f.deferLabel(x)))
@@ -958,6 +979,15 @@ func eachInstr(fn *ssa.Function, f func(in ssa.Instruction)) {
 	for _, b := range fn.Blocks {
 		for _, in := range b.Instrs {
 			f(in)
+		}
+	}
+	if theWorld != nil && fn.Blocks != nil {
+		for _, h := range theWorld.absorbedIn(fn) {
+			for _, b := range h.Blocks {
+				for _, in := range b.Instrs {
+					f(in)
+				}
+			}
 		}
 	}
 }
@@ -1091,4 +1121,164 @@ func flowWithSummaries(w *World, fn *ssa.Function, base *Classifier, all bool) *
 	fl.cl = &cl
 	fl.run()
 	return fl
+}
+
+// absorb analyses a plain call of an extracted helper in line (absorb.go): the
+// helper's body runs from the caller's state, and the caller continues with the
+// join of its return states. Returns nil when the call is not absorbed.
+func (f *Flow) absorb(call *ssa.Call, cur State, record bool) State {
+	if call.Call.IsInvoke() || f.depth > 5 {
+		return nil
+	}
+	h := call.Call.StaticCallee()
+	if h == nil || !f.w.absorbable(h) || f.stack[h] || h == f.fn {
+		return nil
+	}
+	f.stack[h] = true
+	g := &Flow{w: f.w, fn: h, cl: f.cl, sums: f.sums, stack: f.stack, depth: f.depth + 1, entry: cur}
+	g.run()
+	delete(f.stack, h)
+	ex := &helperExit{all: State{}, ok: State{}, fail: State{}}
+	nres := h.Signature.Results().Len()
+	for _, b := range h.Blocks {
+		if len(b.Instrs) == 0 {
+			continue
+		}
+		r, ok := b.Instrs[len(b.Instrs)-1].(*ssa.Return)
+		if !ok {
+			continue
+		}
+		st, have := g.before[r]
+		if !have {
+			continue
+		}
+		for _, d := range st {
+			ex.all.add(d.clone())
+		}
+		if nres == 0 {
+			continue
+		}
+		last := retOperand(r, nres-1)
+		kind := 0 // 1 ok/true, 2 fail/false, 0 either
+		if isErrorType(h.Signature.Results().At(nres - 1).Type()) {
+			if isNilConst(last) {
+				kind = 1
+			} else if c, isCall := last.(*ssa.Call); isCall {
+				switch f.w.calleeName(&c.Call) {
+				case "fmt.Errorf", "errors.New":
+					kind = 2
+				}
+			}
+		} else if b, isC := constBool(last); isC {
+			if b {
+				kind = 1
+			} else {
+				kind = 2
+			}
+		}
+		for _, d := range st {
+			if kind != 2 {
+				ex.ok.add(d.clone())
+			}
+			if kind != 1 {
+				ex.fail.add(d.clone())
+			}
+		}
+	}
+	if f.exits == nil {
+		f.exits = map[*ssa.Call]*helperExit{}
+	}
+	f.exits[call] = ex
+	if record {
+		for in, st := range g.before {
+			if old, had := f.before[in]; had {
+				for _, d := range st {
+					old.add(d.clone())
+				}
+			} else {
+				f.before[in] = st
+			}
+		}
+		for c, e := range g.exits {
+			f.exits[c] = e
+		}
+	}
+	if len(ex.all) == 0 {
+		return nil
+	}
+	out := ex.all.clone()
+	if len(out) > 48 {
+		out = out.collapse()
+	}
+	return out
+}
+
+// absorbedEdgeState: when block p ends by testing the result of an absorbed
+// helper call made in p (with nothing classified in between), the state on the
+// edge is the subset of the helper's return states that returned accordingly.
+func (f *Flow) absorbedEdgeState(p *ssa.BasicBlock, ifi *ssa.If, branch bool) State {
+	if len(f.exits) == 0 {
+		return nil
+	}
+	cond := ifi.Cond
+	neg := false
+	for {
+		if u, ok := cond.(*ssa.UnOp); ok && u.Op == token.NOT {
+			cond, neg = u.X, !neg
+			continue
+		}
+		break
+	}
+	taken := branch != neg
+	var tested ssa.Value
+	wantOK := false
+	if x, ok := cond.(*ssa.BinOp); ok && (x.Op == token.NEQ || x.Op == token.EQL) {
+		var other ssa.Value
+		if isNilConst(x.Y) {
+			other = x.X
+		} else if isNilConst(x.X) {
+			other = x.Y
+		}
+		if other == nil || !isErrorType(other.Type()) {
+			return nil
+		}
+		tested = other
+		isFail := taken == (x.Op == token.NEQ)
+		wantOK = !isFail
+	} else {
+		tested = cond
+		wantOK = taken
+	}
+	co := callOrigin(tested)
+	call, ok := co.(*ssa.Call)
+	if !ok || call.Block() != p {
+		return nil
+	}
+	ex := f.exits[call]
+	if ex == nil {
+		return nil
+	}
+	// nothing that the classifier could react to between the call and the test
+	after := false
+	for _, in := range p.Instrs {
+		if in == ssa.Instruction(call) {
+			after = true
+			continue
+		}
+		if !after {
+			continue
+		}
+		switch in.(type) {
+		case *ssa.Call, *ssa.Store, *ssa.Defer, *ssa.Go, *ssa.Send, *ssa.MapUpdate, *ssa.RunDefers:
+			return nil
+		}
+	}
+	st := ex.fail
+	if wantOK {
+		st = ex.ok
+	}
+	if len(st) == 0 {
+		return State{}
+	}
+	return st.clone()
 }
